@@ -42,6 +42,7 @@ func c19Rules(p *core.Prog, r *core.Run) {
 	r.Analysed(funcNames(p, core.Closures(nt))...)
 	r.Analysed(funcNames(p, lits)...)
 	reqP := rt.Params[1]
+	receiverReadOnly(p, r, "C19.H3.stateless", rt, p.Func(Ech, "(*Dialer).Dial"), p.Func(Ech, "(*Dialer).dialOne"))
 
 	// --- PLAIN
 	nPlain := 0
